@@ -19,6 +19,10 @@ from .sym import (Arr, Mat, Obj, DF, Havoc, Opt, TS, TD, SymMap, Unsupported, Py
                   concrete_bool, concrete_int, to_bool, is_z3, fresh_name)
 
 
+class LoopCheckEnd(Exception):
+    """end of the path that checks one symbolic iteration of a loop against its invariant"""
+
+
 class _Continue(Exception):
     pass
 
@@ -307,7 +311,7 @@ class Interp:
             gs.append(z3.Not(lc.skip))
         return z3.And(*gs) if gs else z3.BoolVal(True)
 
-    def require(self, name, f, kind='safety', line=None):
+    def require(self, name, f, kind='safety', line=None, snapshot=False):
         """Record an obligation generated during execution (index safety, callee precondition,
         frame).  It has to hold under the path condition at this point."""
         cb = concrete_bool(f)
@@ -315,8 +319,13 @@ class Interp:
             return
         # the obligation is checked under the complete path condition of the path it lies on (engine), so only
         # the local guards (if-converted branches, loop domains) are part of the formula itself
-        self.safety.append(dict(name=name, formula=z3.Implies(self.guard_formula(), to_bool(f)),
-                                kind=kind, line=line or self.cur_line, mod=self.cur_mod))
+        rec = dict(name=name, formula=z3.Implies(self.guard_formula(), to_bool(f)),
+                   kind=kind, line=line or self.cur_line, mod=self.cur_mod)
+        if snapshot:
+            # hypotheses = what is known at this point only (later assumptions, e.g. the invariant assumed after
+            # the loop, must not help to prove the invariant's own entry condition)
+            rec['hyps'] = list(self.pc)
+        self.safety.append(rec)
 
     def havoc(self, why, line=None):
         h = Havoc(why, line or self.cur_line)
@@ -361,10 +370,19 @@ class Interp:
         else:
             t_ok = self.feasible(cond)
             f_ok = self.feasible(z3.Not(cond))
+            # a test the path condition already decides takes a slot of the decision list as well (not forkable):
+            # a re-execution along a recorded prefix consumes one slot per undecided-at-first-sight test, so the
+            # slots must be the same in the first run and in every replay
             if t_ok and not f_ok:
+                self.dec.append(True)
+                self.forkable.append(False)
+                self.used += 1
                 self.assume_silent(cond)
                 return True
             if f_ok and not t_ok:
+                self.dec.append(False)
+                self.forkable.append(False)
+                self.used += 1
                 self.assume_silent(z3.Not(cond))
                 return False
             d = True
@@ -1293,6 +1311,10 @@ class Interp:
         if isinstance(it, Havoc):
             raise Unsupported('loop over havoc')
         conc = self.concrete_iter(it)
+        if conc is None:
+            spec = self.loop_spec_for(st, frame)
+            if spec is not None:
+                return self.invariant_for(st, it, frame, spec)
         if conc is not None:
             for item in conc:
                 self.assign(st.target, item, frame)
@@ -1345,6 +1367,184 @@ class Interp:
                 out.extend(s)
             return out
         raise Unsupported(f'iteration over {type(it).__name__}')
+
+    # ---------------------------------------------------------------- loops under a sidecar invariant
+    def loop_spec_for(self, st, frame):
+        specs = getattr(self, 'loop_specs', None)
+        if not specs:
+            return None
+        node = frame['node']
+        key = f"{frame['mod']}:{frame['defcls'] + '.' if frame.get('defcls') else ''}{node.name}"
+        fors = sorted((n for n in ast.walk(node) if isinstance(n, ast.For)), key=lambda n: (n.lineno, n.col_offset))
+        return specs.get((key, fors.index(st)))
+
+    def iter_parts(self, it):
+        """(lo, hi, item(k)) of a symbolic iteration"""
+        if isinstance(it, SymRange):
+            return lift(it.lo), lift(it.hi), (lambda k: k)
+        if isinstance(it, Arr):
+            return z3.IntVal(0), lift(it.n), (lambda k, _f=it.f: _f(k))
+        if isinstance(it, SymEnum) and isinstance(it.arr, Arr):
+            return z3.IntVal(0), lift(it.arr.n), (lambda k, _f=it.arr.f, _s=it.start: (binop('Add', k, _s), _f(k)))
+        if isinstance(it, SymZip) and all(isinstance(a, Arr) for a in it.arrs):
+            ns = [lift(a.n) for a in it.arrs]
+            for n in ns[1:]:
+                if not z3.is_true(z3.simplify(n == ns[0])):
+                    self.require('zip-equal-length', n == ns[0], kind='shape')
+            fs = [a.f for a in it.arrs]
+            return z3.IntVal(0), ns[0], (lambda k: tuple(f(k) for f in fs))
+        raise Unsupported('invariant loop over ' + type(it).__name__)
+
+    def _path_get(self, name, frame):
+        parts = name.split('.')
+        v = frame['env'][parts[0]]
+        for a in parts[1:]:
+            v = v.get(a)
+        return v
+
+    def _path_set(self, name, val, frame):
+        """install a fresh value: arrays / matrices are overwritten in place (aliases see it), anything else rebinds"""
+        parts = name.split('.')
+        if len(parts) == 1:
+            cur = frame['env'].get(name, _MISSING)
+        else:
+            o = frame['env'][parts[0]]
+            for a in parts[1:-1]:
+                o = o.get(a)
+            cur = o.get(parts[-1]) if o.has(parts[-1]) else _MISSING
+        if isinstance(cur, Arr) and isinstance(val, Arr):
+            cur.n, cur.f, cur.view, cur.comp = val.n, val.f, None, None
+            return
+        if isinstance(cur, Mat) and isinstance(val, Mat):
+            cur.nr, cur.nc, cur.f = val.nr, val.nc, val.f
+            return
+        if len(parts) == 1:
+            frame['env'][name] = val
+        else:
+            o.set(parts[-1], val)
+
+    def _heap_snapshot(self, roots, skip):
+        out, seen = [], set(skip)
+
+        def walk(v):
+            if id(v) in seen:
+                return
+            if isinstance(v, Arr):
+                seen.add(id(v)); out.append((v, (v.f, v.n)))
+            elif isinstance(v, Mat):
+                seen.add(id(v)); out.append((v, (v.f, v.nr, v.nc)))
+            elif isinstance(v, DF):
+                seen.add(id(v)); out.append((v, (v.n, v.index) + tuple(v.cols.items())))
+                walk(v.index)
+                for c in v.cols.values():
+                    walk(c)
+            elif isinstance(v, Obj):
+                seen.add(id(v)); out.append((v, tuple(v.attrs.items())))
+                for c in list(v.attrs.values()):
+                    walk(c)
+            elif isinstance(v, (list, tuple)):
+                seen.add(id(v)); out.append((v, tuple(v)))
+                for c in v:
+                    walk(c)
+            elif isinstance(v, dict):
+                seen.add(id(v)); out.append((v, tuple(v.items())))
+                for c in v.values():
+                    walk(c)
+            elif isinstance(v, SymMap):
+                seen.add(id(v)); out.append((v, tuple(v.items)))
+                for _, c in v.items:
+                    walk(c)
+            elif isinstance(v, Seg):
+                seen.add(id(v)); out.append((v, tuple(v.segs)))
+        for r in roots:
+            walk(r)
+        return out
+
+    @staticmethod
+    def _heap_token(v):
+        if isinstance(v, Arr):
+            return (v.f, v.n)
+        if isinstance(v, Mat):
+            return (v.f, v.nr, v.nc)
+        if isinstance(v, DF):
+            return (v.n, v.index) + tuple(v.cols.items())
+        if isinstance(v, Obj):
+            return tuple(v.attrs.items())
+        if isinstance(v, (list, tuple)):
+            return tuple(v)
+        if isinstance(v, dict):
+            return tuple(v.items())
+        if isinstance(v, SymMap):
+            return tuple(v.items)
+        if isinstance(v, Seg):
+            return tuple(v.segs)
+
+    @staticmethod
+    def _same_token(a, b):
+        if len(a) != len(b):
+            return False
+        for x, y in zip(a, b):
+            if isinstance(x, tuple) and isinstance(y, tuple):
+                if len(x) != len(y) or any(p is not q and not (isinstance(p, (str, int, float, bool, type(None))) and p == q) for p, q in zip(x, y)):
+                    return False
+            elif x is not y and not (isinstance(x, (str, int, float, bool, type(None))) and type(x) is type(y) and x == y):
+                return False
+        return True
+
+    def invariant_for(self, st, it, frame, spec):
+        """for-loop verified against a sidecar invariant (classical rule):
+             entry:   inv(lo)                                   obligation, hypotheses = path condition so far
+             step:    lo <= k < hi, inv(k) on a fresh state  |-  body establishes inv(k+1)   (own path, ends there)
+             exit:    continue with a fresh state satisfying inv(max(lo, hi))
+           Everything the body assigns that the invariant's state does not name is havoc afterwards; a heap object
+           the body modifies outside the declared state makes the path unmodelled (never a violation)."""
+        if self.loops:
+            raise Unsupported('invariant loop inside a summarised loop')
+        env = frame['env']
+        lo, hi, itemf = self.iter_parts(it)
+        label = spec.label
+        names = list(spec.names)
+        cur = lambda: {nm: self._path_get(nm, frame) for nm in names}
+        for nme, f in spec.inv(self, lo, cur(), env):
+            self.require(f'{label}.entry.{nme}', f, kind='invariant', snapshot=True)
+        assigned = {n.id for n in ast.walk(st) if isinstance(n, ast.Name) and isinstance(n.ctx, ast.Store)}
+        top = {nm.split('.')[0] for nm in names if '.' not in nm}
+        b = z3.Bool(fresh_name('loopcheck'))
+        if self.decide(b):
+            k = z3.Int(fresh_name('k'))
+            self.assume(z3.And(k >= lo, k < hi))
+            for nm, val in spec.fresh(self, k, env, 'k').items():
+                self._path_set(nm, val, frame)
+            carried = loop_carried(st)
+            for nm in carried['names']:
+                if nm not in top and nm in env:
+                    env[nm] = Havoc(f'loop-carried variable {nm} not in the invariant', st.lineno)
+            self.assume(z3.And(*[to_bool(f) for _, f in spec.inv(self, k, cur(), env)]))
+            state_ids = {id(v) for v in cur().values()}
+            snap = self._heap_snapshot([v for nm, v in env.items()], state_ids)
+            self.assign(st.target, itemf(k), frame)
+            try:
+                self.exec_block(st.body, frame)
+            except _Continue:
+                pass
+            except _Break:
+                raise Unsupported('break in a loop under invariant')
+            state_ids = {id(v) for v in cur().values()}
+            for obj, tok in snap:
+                if id(obj) in state_ids:
+                    continue
+                if not self._same_token(tok, self._heap_token(obj)):
+                    raise Unsupported(f'loop body modifies {type(obj).__name__} outside the state of the invariant')
+            for nme, f in spec.inv(self, k + 1, cur(), env):
+                self.require(f'{label}.step.{nme}', f, kind='invariant', snapshot=True)
+            raise LoopCheckEnd(label)
+        kend = z3.If(hi >= lo, hi, lo)
+        for nm, val in spec.fresh(self, kend, env, 'end').items():
+            self._path_set(nm, val, frame)
+        for nm in assigned:
+            if nm not in top:
+                env[nm] = Havoc(f'value of {nm} after a loop under invariant', st.lineno)
+        self.assume(z3.And(*[to_bool(f) for _, f in spec.inv(self, kend, cur(), env)]))
 
     def symbolic_for(self, st, it, frame):
         env = frame['env']
